@@ -1,16 +1,736 @@
-//! Suite C03 (stub — replaced when the property's harness is built).
-#![allow(dead_code, unused_imports)]
+//! Suite C03: totality / bounds-safety / termination of the MAC-command iterators of all six command
+//! sets, of every payload accessor and checked constructor, and of the frame parsers (real code).
+#![allow(dead_code)]
 use crate::util::*;
+use lorawan::certification::{self as cert, DownlinkDUTCommand, UplinkDUTCommand};
+use lorawan::keys::{Crypto, NetworkCrypto};
+use lorawan::maccommands::{self as mc, DownlinkMacCommand, ParseError, SerializableMacCommand, UplinkMacCommand};
+use lorawan::multicast::{self as mcast, DownlinkRemoteSetup, UplinkRemoteSetup};
+use std::panic::AssertUnwindSafe;
 
-pub fn eval(_op: &str) -> String {
-    "bad-op".into()
+#[path = "c03_frames.rs"]
+pub mod c03_frames;
+
+pub const SETS: [&str; 6] = ["DownlinkMacCommand", "UplinkMacCommand", "DownlinkDUTCommand", "UplinkDUTCommand", "DownlinkRemoteSetup", "UplinkRemoteSetup"];
+
+/// The toy block cipher plugged into the multicast key accessors (same as `Driver.C03.toyEnc/toyDec`):
+/// `encrypt_block` adds 1 to every octet then rotates left by one; `decrypt_block` is its inverse.
+pub struct Toy;
+impl Crypto for Toy {
+    fn encrypt_block(&self, b: &mut [u8]) {
+        for x in b.iter_mut() {
+            *x = x.wrapping_add(1);
+        }
+        b.rotate_left(1);
+    }
+    fn calculate_mic(&self, _b0: &[u8], _data: &[u8]) -> [u8; 4] {
+        [0; 4]
+    }
+}
+impl NetworkCrypto for Toy {
+    fn decrypt_block(&self, b: &mut [u8]) {
+        b.rotate_right(1);
+        for x in b.iter_mut() {
+            *x = x.wrapping_sub(1);
+        }
+    }
 }
 
-pub fn expand(_op: &str) -> Vec<String> {
-    vec![]
+pub fn g(f: impl FnOnce() -> String) -> String {
+    guarded(AssertUnwindSafe(f)).unwrap_or_else(|| "PANIC".into())
+}
+fn b(v: bool) -> String {
+    (v as u8).to_string()
+}
+fn opt_b(v: Option<bool>) -> String {
+    match v {
+        None => "none".into(),
+        Some(x) => b(x),
+    }
+}
+fn err(e: mc::Error) -> String {
+    format!("ERR:{:?}", e)
 }
 
-pub fn run(_tier: &str, _seed: u64, dir: &str) {
-    let sink = Sink::new(dir);
-    sink.finish(dir, "stub", false, serde_json::json!({}));
+macro_rules! accs {
+    ($( $name:literal => $e:expr ),* $(,)?) => {{
+        let v: Vec<String> = vec![ $( format!("{}={}", $name, g(|| $e)) ),* ];
+        v.join(",")
+    }};
+}
+
+// ---- payload accessors, one function per payload type (shared by `iter`, `new` and suite C19)
+pub fn acc_link_check_ans(p: &mc::LinkCheckAnsPayload) -> String {
+    accs!("margin" => p.margin().to_string(), "gateway_count" => p.gateway_count().to_string())
+}
+pub fn acc_link_adr_req(p: &mc::LinkADRReqPayload) -> String {
+    accs!(
+        "data_rate" => (p.data_rate() as u8).to_string(),
+        "tx_power" => (p.tx_power() as u8).to_string(),
+        "channel_mask" => hex(p.channel_mask().as_ref()),
+        "redundancy" => p.redundancy().raw_value().to_string(),
+        "chmask_cntl" => p.redundancy().channel_mask_control().to_string(),
+        "nb_trans" => p.redundancy().number_of_transmissions().to_string(),
+    )
+}
+pub fn acc_duty_cycle_req(p: &mc::DutyCycleReqPayload) -> String {
+    accs!("max_duty_cycle_raw" => p.max_duty_cycle_raw().to_string(), "max_duty_cycle_bits" => p.max_duty_cycle().to_bits().to_string())
+}
+pub fn acc_rx_param_setup_req(p: &mc::RXParamSetupReqPayload) -> String {
+    accs!(
+        "dl_settings" => p.dl_settings().raw_value().to_string(),
+        "rx1_dr_offset" => p.dl_settings().rx1_dr_offset().to_string(),
+        "rx2_data_rate" => (p.dl_settings().rx2_data_rate() as u8).to_string(),
+        "frequency" => p.frequency().value().to_string(),
+    )
+}
+pub fn acc_new_channel_req(p: &mc::NewChannelReqPayload) -> String {
+    accs!(
+        "channel_index" => p.channel_index().to_string(),
+        "frequency" => p.frequency().value().to_string(),
+        "data_rate_range" => match p.data_rate_range() { Ok(r) => r.raw_value().to_string(), Err(e) => err(e) },
+        "drr_max" => match p.data_rate_range() { Ok(r) => r.max_data_rate().to_string(), Err(e) => err(e) },
+        "drr_min" => match p.data_rate_range() { Ok(r) => r.min_data_rate().to_string(), Err(e) => err(e) },
+    )
+}
+pub fn acc_rx_timing_setup_req(p: &mc::RXTimingSetupReqPayload) -> String {
+    accs!("delay" => p.delay().to_string())
+}
+pub fn acc_tx_param_setup_req(p: &mc::TXParamSetupReqPayload) -> String {
+    accs!("downlink_dwell_time" => b(p.downlink_dwell_time()), "uplink_dwell_time" => b(p.uplink_dwell_time()), "max_eirp" => p.max_eirp().to_string())
+}
+pub fn acc_dl_channel_req(p: &mc::DlChannelReqPayload) -> String {
+    accs!("channel_index" => p.channel_index().to_string(), "frequency" => p.frequency().value().to_string())
+}
+pub fn acc_device_time_ans(p: &mc::DeviceTimeAnsPayload) -> String {
+    accs!("seconds" => p.seconds().to_string(), "nano_seconds" => p.nano_seconds().to_string())
+}
+pub fn acc_link_adr_ans(p: &mc::LinkADRAnsPayload) -> String {
+    accs!("channel_mask_ack" => b(p.channel_mask_ack()), "data_rate_ack" => b(p.data_rate_ack()), "powert_ack" => b(p.powert_ack()), "ack" => b(p.ack()))
+}
+pub fn acc_rx_param_setup_ans(p: &mc::RXParamSetupAnsPayload) -> String {
+    accs!("channel_ack" => b(p.channel_ack()), "rx2_data_rate_ack" => b(p.rx2_data_rate_ack()), "rx1_dr_offset_ack" => b(p.rx1_dr_offset_ack()), "ack" => b(p.ack()))
+}
+pub fn acc_dev_status_ans(p: &mc::DevStatusAnsPayload) -> String {
+    accs!("battery" => p.battery().to_string(), "margin" => p.margin().to_string())
+}
+pub fn acc_new_channel_ans(p: &mc::NewChannelAnsPayload) -> String {
+    accs!("channel_freq_ack" => b(p.channel_freq_ack()), "data_rate_range_ack" => b(p.data_rate_range_ack()), "ack" => b(p.ack()))
+}
+pub fn acc_dl_channel_ans(p: &mc::DlChannelAnsPayload) -> String {
+    accs!("channel_freq_ack" => b(p.channel_freq_ack()), "uplink_freq_ack" => b(p.uplink_freq_ack()), "ack" => b(p.ack()))
+}
+pub fn acc_adr_bit_change_req(p: &cert::AdrBitChangeReqPayload) -> String {
+    accs!("adr_enable" => match p.adr_enable() { Ok(v) => b(v), Err(e) => err(e) })
+}
+pub fn acc_tx_periodicity_change_req(p: &cert::TxPeriodicityChangeReqPayload) -> String {
+    accs!("periodicity" => match p.periodicity() { Ok(None) => "none".into(), Ok(Some(s)) => s.to_string(), Err(e) => err(e) })
+}
+pub fn acc_tx_frames_ctrl_req(p: &cert::TxFramesCtrlReqPayload) -> String {
+    accs!("len" => p.len().to_string(), "frame_type_override" => match p.frame_type_override() { Ok(v) => opt_b(v), Err(e) => err(e) })
+}
+pub fn acc_echo_inc_payload_req(p: &cert::EchoIncPayloadReqPayload) -> String {
+    accs!("len" => p.len().to_string(), "payload" => hex(p.payload()))
+}
+pub fn acc_echo_inc_payload_ans(p: &cert::EchoIncPayloadAnsPayload) -> String {
+    accs!("len" => p.len().to_string(), "payload" => hex(p.payload()))
+}
+pub fn acc_mc_group_status_req(p: &mcast::McGroupStatusReqPayload) -> String {
+    accs!("req_group_mask" => p.req_group_mask().to_string())
+}
+pub fn acc_mc_group_setup_req(p: &mcast::McGroupSetupReqPayload) -> String {
+    accs!(
+        "mc_group_id_header" => p.mc_group_id_header().to_string(),
+        "mc_addr" => hex(p.mc_addr().as_wire_bytes()),
+        "mc_key_decrypted" => hex(p.mc_key_decrypted(&Toy).as_ref()),
+        "min_mc_fcount" => p.min_mc_fcount().to_string(),
+        "max_mc_fcount" => p.max_mc_fcount().to_string(),
+    )
+}
+pub fn acc_mc_group_delete_req(p: &mcast::McGroupDeleteReqPayload) -> String {
+    accs!("mc_group_id_header" => p.mc_group_id_header().to_string())
+}
+pub fn acc_package_version_ans(p: &mcast::PackageVersionAnsPayload) -> String {
+    accs!("package_identifier" => p.package_identifier().to_string(), "package_version" => p.package_version().to_string())
+}
+pub fn acc_mc_group_status_ans(p: &mcast::McGroupStatusAnsPayload) -> String {
+    accs!(
+        "ans_group_mask" => p.ans_group_mask().to_string(),
+        "nb_total_groups" => p.nb_total_groups().to_string(),
+        "len" => p.len().to_string(),
+        "items" => {
+            let mut v = vec![];
+            let mut it = p.item_iterator();
+            let mut budget = 64;
+            while let Some(i) = it.next() {
+                v.push(format!("{}:{}", i.mc_group_id(), hex(i.mc_addr().as_wire_bytes())));
+                budget -= 1;
+                if budget == 0 {
+                    v.push("HANG".into());
+                    break;
+                }
+            }
+            if v.is_empty() { "-".into() } else { v.join("/") }
+        },
+    )
+}
+pub fn acc_mc_group_setup_ans(p: &mcast::McGroupSetupAnsPayload) -> String {
+    accs!("mc_group_id_header" => p.mc_group_id_header().to_string())
+}
+pub fn acc_mc_group_delete_ans(p: &mcast::McGroupDeleteAnsPayload) -> String {
+    accs!("mc_group_id_header" => p.mc_group_id_header().to_string(), "mc_group_undefined" => b(p.mc_group_undefined()))
+}
+
+fn dl_mac(c: &DownlinkMacCommand) -> (&'static str, String) {
+    use DownlinkMacCommand::*;
+    match c {
+        LinkCheckAns(p) => ("LinkCheckAns", acc_link_check_ans(p)),
+        LinkADRReq(p) => ("LinkADRReq", acc_link_adr_req(p)),
+        DutyCycleReq(p) => ("DutyCycleReq", acc_duty_cycle_req(p)),
+        RXParamSetupReq(p) => ("RXParamSetupReq", acc_rx_param_setup_req(p)),
+        DevStatusReq(_) => ("DevStatusReq", String::new()),
+        NewChannelReq(p) => ("NewChannelReq", acc_new_channel_req(p)),
+        RXTimingSetupReq(p) => ("RXTimingSetupReq", acc_rx_timing_setup_req(p)),
+        TXParamSetupReq(p) => ("TXParamSetupReq", acc_tx_param_setup_req(p)),
+        DlChannelReq(p) => ("DlChannelReq", acc_dl_channel_req(p)),
+        DeviceTimeAns(p) => ("DeviceTimeAns", acc_device_time_ans(p)),
+    }
+}
+fn ul_mac(c: &UplinkMacCommand) -> (&'static str, String) {
+    use UplinkMacCommand::*;
+    match c {
+        LinkCheckReq(_) => ("LinkCheckReq", String::new()),
+        LinkADRAns(p) => ("LinkADRAns", acc_link_adr_ans(p)),
+        DutyCycleAns(_) => ("DutyCycleAns", String::new()),
+        RXParamSetupAns(p) => ("RXParamSetupAns", acc_rx_param_setup_ans(p)),
+        DevStatusAns(p) => ("DevStatusAns", acc_dev_status_ans(p)),
+        NewChannelAns(p) => ("NewChannelAns", acc_new_channel_ans(p)),
+        RXTimingSetupAns(_) => ("RXTimingSetupAns", String::new()),
+        TXParamSetupAns(_) => ("TXParamSetupAns", String::new()),
+        DlChannelAns(p) => ("DlChannelAns", acc_dl_channel_ans(p)),
+        DeviceTimeReq(_) => ("DeviceTimeReq", String::new()),
+    }
+}
+fn dl_dut(c: &DownlinkDUTCommand) -> (&'static str, String) {
+    use DownlinkDUTCommand::*;
+    match c {
+        DutResetReq(_) => ("DutResetReq", String::new()),
+        DutJoinReq(_) => ("DutJoinReq", String::new()),
+        AdrBitChangeReq(p) => ("AdrBitChangeReq", acc_adr_bit_change_req(p)),
+        TxPeriodicityChangeReq(p) => ("TxPeriodicityChangeReq", acc_tx_periodicity_change_req(p)),
+        TxFramesCtrlReq(p) => ("TxFramesCtrlReq", acc_tx_frames_ctrl_req(p)),
+        EchoIncPayloadReq(p) => ("EchoIncPayloadReq", acc_echo_inc_payload_req(p)),
+        RxAppCntReq(_) => ("RxAppCntReq", String::new()),
+        LinkCheckReq(_) => ("LinkCheckReq", String::new()),
+        DutVersionsReq(_) => ("DutVersionsReq", String::new()),
+    }
+}
+fn ul_dut(c: &UplinkDUTCommand) -> (&'static str, String) {
+    use UplinkDUTCommand::*;
+    match c {
+        EchoIncPayloadAns(p) => ("EchoIncPayloadAns", acc_echo_inc_payload_ans(p)),
+        RxAppCntAns(_) => ("RxAppCntAns", String::new()),
+        DutVersionsAns(_) => ("DutVersionsAns", String::new()),
+    }
+}
+fn dl_mcast(c: &DownlinkRemoteSetup) -> (&'static str, String) {
+    use DownlinkRemoteSetup::*;
+    match c {
+        PackageVersionReq(_) => ("PackageVersionReq", String::new()),
+        McGroupStatusReq(p) => ("McGroupStatusReq", acc_mc_group_status_req(p)),
+        McGroupSetupReq(p) => ("McGroupSetupReq", acc_mc_group_setup_req(p)),
+        McGroupDeleteReq(p) => ("McGroupDeleteReq", acc_mc_group_delete_req(p)),
+        McClassCSessionReq(_) => ("McClassCSessionReq", String::new()),
+        McClassBSessionReq(_) => ("McClassBSessionReq", String::new()),
+    }
+}
+fn ul_mcast(c: &UplinkRemoteSetup) -> (&'static str, String) {
+    use UplinkRemoteSetup::*;
+    match c {
+        PackageVersionAns(p) => ("PackageVersionAns", acc_package_version_ans(p)),
+        McGroupStatusAns(p) => ("McGroupStatusAns", acc_mc_group_status_ans(p)),
+        McGroupSetupAns(p) => ("McGroupSetupAns", acc_mc_group_setup_ans(p)),
+        McGroupDeleteAns(p) => ("McGroupDeleteAns", acc_mc_group_delete_ans(p)),
+        McClassCSessionAns(_) => ("McClassCSessionAns", String::new()),
+        McClassBSessionAns(_) => ("McClassBSessionAns", String::new()),
+    }
+}
+
+/// the step budget: an iterator over ≤ 255 bytes that yields more than this many items is a hang
+pub const STEP_BUDGET: usize = 300;
+
+/// Drain one iterator. `describe` yields (cid, payload bytes, variant, accessors).
+fn drain<'a, C>(
+    data: &'a [u8],
+    mut it: impl Iterator<Item = Result<C, ParseError>>,
+    describe: impl Fn(&C) -> (u8, Vec<u8>, usize, &'static str, String),
+) -> String {
+    let base = data.as_ptr() as usize;
+    let mut items: Vec<String> = vec![];
+    let mut consumed = 0usize;
+    let mut after_none = false;
+    loop {
+        if items.len() > STEP_BUDGET {
+            return "HANG".into();
+        }
+        let nx = guarded(AssertUnwindSafe(|| it.next()));
+        match nx {
+            None => return "PANIC".into(),
+            Some(None) => {
+                // fused in the Rust sense as well: a second call must also return None
+                if !after_none {
+                    after_none = true;
+                    continue;
+                }
+                break;
+            }
+            Some(Some(_)) if after_none => return "NOT-FUSED".into(),
+            Some(Some(Err(ParseError::UnknownCid(c)))) => items.push(format!("ERR:unknown:{:02x}", c)),
+            Some(Some(Err(ParseError::Truncated { cid }))) => items.push(format!("ERR:trunc:{:02x}", cid)),
+            Some(Some(Ok(c))) => {
+                let d = guarded(AssertUnwindSafe(|| describe(&c)));
+                match d {
+                    None => items.push("PANIC".into()),
+                    Some((cid, payload, ptr, variant, accs)) => {
+                        // the payload must be the slice of the input right after the CID just consumed
+                        let misplaced = !payload.is_empty() && ptr != base + consumed + 1;
+                        let wrong_cid = data.get(consumed) != Some(&cid);
+                        items.push(format!(
+                            "{:02x}:{}:{}{{{}}}{}",
+                            cid,
+                            variant,
+                            hex(&payload),
+                            accs,
+                            if misplaced || wrong_cid { "MISPLACED" } else { "" }
+                        ));
+                        consumed += 1 + payload.len();
+                    }
+                }
+            }
+        }
+    }
+    let rest = if consumed <= data.len() { hex(&data[consumed..]) } else { "OVERRUN".into() };
+    format!("{} rest={}", if items.is_empty() { "-".to_string() } else { items.join(";") }, rest)
+}
+
+macro_rules! describe {
+    ($f:ident) => {
+        |c| {
+            let (v, a) = $f(c);
+            let bytes = c.bytes();
+            (SerializableMacCommand::cid(c), bytes.to_vec(), bytes.as_ptr() as usize, v, a)
+        }
+    };
+}
+
+pub fn iter(set: &str, data: &[u8]) -> String {
+    match set {
+        "DownlinkMacCommand" => drain(data, mc::parse_downlink_mac_commands(data), describe!(dl_mac)),
+        "UplinkMacCommand" => drain(data, mc::parse_uplink_mac_commands(data), describe!(ul_mac)),
+        "DownlinkDUTCommand" => drain(data, cert::parse_downlink_dut_commands(data), describe!(dl_dut)),
+        "UplinkDUTCommand" => drain(data, cert::parse_uplink_dut_commands(data), describe!(ul_dut)),
+        "DownlinkRemoteSetup" => drain(data, mcast::parse_downlink_multicast_commands(data), describe!(dl_mcast)),
+        "UplinkRemoteSetup" => drain(data, mcast::parse_uplink_multicast_commands(data), describe!(ul_mcast)),
+        _ => "bad-op".into(),
+    }
+}
+
+/// `Payload::new(data)` then every accessor
+pub fn new_payload(ty: &str, data: &[u8]) -> String {
+    macro_rules! fixed {
+        ($t:ty, $acc:ident) => {
+            g(|| match <$t>::new(data) {
+                Err(e) => err(e),
+                Ok(p) => format!("{}{{{}}}", hex(p.bytes()), $acc(&p)),
+            })
+        };
+    }
+    macro_rules! plain {
+        ($t:ty) => {
+            g(|| match <$t>::new(data) {
+                Err(e) => err(e),
+                Ok(p) => format!("{}{{}}", hex(p.bytes())),
+            })
+        };
+    }
+    macro_rules! unit {
+        ($t:ty) => {
+            g(|| {
+                let p = <$t>::new(data);
+                format!("{}{{}}", hex(p.bytes()))
+            })
+        };
+    }
+    match ty {
+        "LinkCheckAnsPayload" => fixed!(mc::LinkCheckAnsPayload, acc_link_check_ans),
+        "LinkADRReqPayload" => fixed!(mc::LinkADRReqPayload, acc_link_adr_req),
+        "DutyCycleReqPayload" => fixed!(mc::DutyCycleReqPayload, acc_duty_cycle_req),
+        "RXParamSetupReqPayload" => fixed!(mc::RXParamSetupReqPayload, acc_rx_param_setup_req),
+        "DevStatusReqPayload" => unit!(mc::DevStatusReqPayload),
+        "NewChannelReqPayload" => fixed!(mc::NewChannelReqPayload, acc_new_channel_req),
+        "RXTimingSetupReqPayload" => fixed!(mc::RXTimingSetupReqPayload, acc_rx_timing_setup_req),
+        "TXParamSetupReqPayload" => fixed!(mc::TXParamSetupReqPayload, acc_tx_param_setup_req),
+        "DlChannelReqPayload" => fixed!(mc::DlChannelReqPayload, acc_dl_channel_req),
+        "DeviceTimeAnsPayload" => fixed!(mc::DeviceTimeAnsPayload, acc_device_time_ans),
+        "LinkCheckReqPayload" => unit!(mc::LinkCheckReqPayload),
+        "LinkADRAnsPayload" => fixed!(mc::LinkADRAnsPayload, acc_link_adr_ans),
+        "DutyCycleAnsPayload" => unit!(mc::DutyCycleAnsPayload),
+        "RXParamSetupAnsPayload" => fixed!(mc::RXParamSetupAnsPayload, acc_rx_param_setup_ans),
+        "DevStatusAnsPayload" => fixed!(mc::DevStatusAnsPayload, acc_dev_status_ans),
+        "NewChannelAnsPayload" => fixed!(mc::NewChannelAnsPayload, acc_new_channel_ans),
+        "RXTimingSetupAnsPayload" => unit!(mc::RXTimingSetupAnsPayload),
+        "TXParamSetupAnsPayload" => unit!(mc::TXParamSetupAnsPayload),
+        "DlChannelAnsPayload" => fixed!(mc::DlChannelAnsPayload, acc_dl_channel_ans),
+        "DeviceTimeReqPayload" => unit!(mc::DeviceTimeReqPayload),
+        "DutResetReqPayload" => unit!(cert::DutResetReqPayload),
+        "DutJoinReqPayload" => unit!(cert::DutJoinReqPayload),
+        "AdrBitChangeReqPayload" => fixed!(cert::AdrBitChangeReqPayload, acc_adr_bit_change_req),
+        "TxPeriodicityChangeReqPayload" => fixed!(cert::TxPeriodicityChangeReqPayload, acc_tx_periodicity_change_req),
+        "TxFramesCtrlReqPayload" => fixed!(cert::TxFramesCtrlReqPayload, acc_tx_frames_ctrl_req),
+        "EchoIncPayloadReqPayload" => fixed!(cert::EchoIncPayloadReqPayload, acc_echo_inc_payload_req),
+        "RxAppCntReqPayload" => unit!(cert::RxAppCntReqPayload),
+        "DutVersionsReqPayload" => unit!(cert::DutVersionsReqPayload),
+        "EchoIncPayloadAnsPayload" => fixed!(cert::EchoIncPayloadAnsPayload, acc_echo_inc_payload_ans),
+        "RxAppCntAnsPayload" => plain!(cert::RxAppCntAnsPayload),
+        "DutVersionsAnsPayload" => plain!(cert::DutVersionsAnsPayload),
+        "PackageVersionReqPayload" => unit!(mcast::PackageVersionReqPayload),
+        "McGroupStatusReqPayload" => fixed!(mcast::McGroupStatusReqPayload, acc_mc_group_status_req),
+        "McGroupSetupReqPayload" => fixed!(mcast::McGroupSetupReqPayload, acc_mc_group_setup_req),
+        "McGroupDeleteReqPayload" => fixed!(mcast::McGroupDeleteReqPayload, acc_mc_group_delete_req),
+        "McClassCSessionReqPayload" => plain!(mcast::McClassCSessionReqPayload),
+        "McClassBSessionReqPayload" => plain!(mcast::McClassBSessionReqPayload),
+        "PackageVersionAnsPayload" => fixed!(mcast::PackageVersionAnsPayload, acc_package_version_ans),
+        "McGroupStatusAnsPayload" => fixed!(mcast::McGroupStatusAnsPayload, acc_mc_group_status_ans),
+        "McGroupSetupAnsPayload" => fixed!(mcast::McGroupSetupAnsPayload, acc_mc_group_setup_ans),
+        "McGroupDeleteAnsPayload" => fixed!(mcast::McGroupDeleteAnsPayload, acc_mc_group_delete_ans),
+        "McClassCSessionAnsPayload" => plain!(mcast::McClassCSessionAnsPayload),
+        "McClassBSessionAnsPayload" => plain!(mcast::McClassBSessionAnsPayload),
+        _ => "bad-op".into(),
+    }
+}
+
+/// (cid, payload length or None = variable, payload type) of every command: the harness' own copy, used
+/// only to GENERATE well-formed streams (never to judge answers)
+pub fn catalogue(set: &str) -> Vec<(u8, Option<usize>, &'static str)> {
+    match set {
+        "DownlinkMacCommand" => vec![
+            (0x02, Some(2), "LinkCheckAnsPayload"),
+            (0x03, Some(4), "LinkADRReqPayload"),
+            (0x04, Some(1), "DutyCycleReqPayload"),
+            (0x05, Some(4), "RXParamSetupReqPayload"),
+            (0x06, Some(0), "DevStatusReqPayload"),
+            (0x07, Some(5), "NewChannelReqPayload"),
+            (0x08, Some(1), "RXTimingSetupReqPayload"),
+            (0x09, Some(1), "TXParamSetupReqPayload"),
+            (0x0a, Some(4), "DlChannelReqPayload"),
+            (0x0d, Some(5), "DeviceTimeAnsPayload"),
+        ],
+        "UplinkMacCommand" => vec![
+            (0x02, Some(0), "LinkCheckReqPayload"),
+            (0x03, Some(1), "LinkADRAnsPayload"),
+            (0x04, Some(0), "DutyCycleAnsPayload"),
+            (0x05, Some(1), "RXParamSetupAnsPayload"),
+            (0x06, Some(2), "DevStatusAnsPayload"),
+            (0x07, Some(1), "NewChannelAnsPayload"),
+            (0x08, Some(0), "RXTimingSetupAnsPayload"),
+            (0x09, Some(0), "TXParamSetupAnsPayload"),
+            (0x0a, Some(1), "DlChannelAnsPayload"),
+            (0x0d, Some(0), "DeviceTimeReqPayload"),
+        ],
+        "DownlinkDUTCommand" => vec![
+            (0x01, Some(0), "DutResetReqPayload"),
+            (0x02, Some(0), "DutJoinReqPayload"),
+            (0x04, Some(1), "AdrBitChangeReqPayload"),
+            (0x06, Some(1), "TxPeriodicityChangeReqPayload"),
+            (0x07, None, "TxFramesCtrlReqPayload"),
+            (0x08, None, "EchoIncPayloadReqPayload"),
+            (0x09, Some(0), "RxAppCntReqPayload"),
+            (0x20, Some(0), "LinkCheckReqPayload"),
+            (0x7f, Some(0), "DutVersionsReqPayload"),
+        ],
+        "UplinkDUTCommand" => vec![(0x08, None, "EchoIncPayloadAnsPayload"), (0x09, Some(2), "RxAppCntAnsPayload"), (0x7f, Some(12), "DutVersionsAnsPayload")],
+        "DownlinkRemoteSetup" => vec![
+            (0x00, Some(0), "PackageVersionReqPayload"),
+            (0x01, Some(1), "McGroupStatusReqPayload"),
+            (0x02, Some(29), "McGroupSetupReqPayload"),
+            (0x03, Some(1), "McGroupDeleteReqPayload"),
+            (0x04, Some(10), "McClassCSessionReqPayload"),
+            (0x05, Some(10), "McClassBSessionReqPayload"),
+        ],
+        "UplinkRemoteSetup" => vec![
+            (0x00, Some(2), "PackageVersionAnsPayload"),
+            (0x01, None, "McGroupStatusAnsPayload"),
+            (0x02, Some(1), "McGroupSetupAnsPayload"),
+            (0x03, Some(1), "McGroupDeleteAnsPayload"),
+            (0x04, Some(4), "McClassCSessionAnsPayload"),
+            (0x05, Some(4), "McClassBSessionAnsPayload"),
+        ],
+        _ => vec![],
+    }
+}
+
+fn fnv_line(h: &mut Fnv, s: &str) {
+    for b in s.bytes() {
+        h.byte(b);
+    }
+    h.byte(10);
+}
+
+fn digest_all(set: &str, pre: &[u8], k: usize) -> u64 {
+    fn rec(set: &str, cur: &mut Vec<u8>, k: usize, h: &mut Fnv) {
+        if k == 0 {
+            fnv_line(h, &iter(set, cur));
+            return;
+        }
+        for b in 0..=255u8 {
+            cur.push(b);
+            rec(set, cur, k - 1, h);
+            cur.pop();
+        }
+    }
+    let mut h = Fnv::new();
+    let mut cur = pre.to_vec();
+    rec(set, &mut cur, k, &mut h);
+    h.0
+}
+
+pub fn eval(op: &str) -> String {
+    let w: Vec<&str> = op.split_whitespace().collect();
+    match w.as_slice() {
+        ["C03", "iter", set, h] => iter(set, &unhex(h)),
+        ["C03", "iter_digest", set, pre, k] => {
+            let Ok(k) = k.parse::<usize>() else { return "bad-op".into() };
+            if k > 3 || !SETS.contains(set) {
+                return "bad-op".into();
+            }
+            format!("{:016x}", digest_all(set, &unhex(pre), k))
+        }
+        ["C03", "new", _set, ty, h] => new_payload(ty, &unhex(h)),
+        ["C03", "frame", ..] | ["C03", "frame_digest", ..] => c03_frames::eval(&w),
+        _ => "bad-op".into(),
+    }
+}
+
+pub fn expand(op: &str) -> Vec<String> {
+    let w: Vec<&str> = op.split_whitespace().collect();
+    let mut out = vec![];
+    match w.as_slice() {
+        ["C03", "iter_digest", set, pre, k] => {
+            let k = k.parse::<usize>().unwrap_or(0);
+            let pre = unhex(pre);
+            let n = 256usize.pow(k as u32);
+            for i in 0..n {
+                let mut s = pre.clone();
+                for j in 0..k {
+                    s.push(((i >> (8 * (k - 1 - j))) & 0xff) as u8);
+                }
+                out.push(format!("C03 iter {} {}", set, hex(&s)));
+            }
+        }
+        ["C03", "frame_digest", ..] => out = c03_frames::expand(&w),
+        _ => {}
+    }
+    out
+}
+
+/// a well-formed payload for one catalogue entry
+fn gen_payload(rng: &mut Rng, len: Option<usize>, ty: &str, last: bool) -> Vec<u8> {
+    match len {
+        Some(n) => rng.bytes(n),
+        None if ty == "McGroupStatusAnsPayload" => {
+            let mask = rng.below(16) as u8;
+            let status = mask | ((rng.below(8) as u8) << 4);
+            let mut v = vec![status];
+            v.extend(rng.bytes(5 * mask.count_ones() as usize));
+            v
+        }
+        None => {
+            // to-the-end payloads: 1..n octets (they swallow whatever follows, so they are placed last)
+            let n = if last { 1 + rng.below(20) as usize } else { 1 };
+            rng.bytes(n)
+        }
+    }
+}
+
+pub fn gen_stream(rng: &mut Rng, set: &str, max_cmds: usize) -> Vec<u8> {
+    let cat = catalogue(set);
+    let n = 1 + rng.below(max_cmds as u64) as usize;
+    let mut v = vec![];
+    for i in 0..n {
+        let (cid, len, ty) = *rng.pick(&cat);
+        let p = gen_payload(rng, len, ty, i + 1 == n);
+        if v.len() + 1 + p.len() > 255 {
+            break;
+        }
+        v.push(cid);
+        v.extend(p);
+    }
+    v
+}
+
+fn mutate(rng: &mut Rng, v: &mut Vec<u8>) -> &'static str {
+    match rng.below(7) {
+        0 => {
+            let n = rng.below(v.len() as u64 + 1) as usize;
+            v.truncate(n);
+            "truncate"
+        }
+        1 if !v.is_empty() => {
+            let i = rng.below(v.len() as u64) as usize;
+            v[i] ^= 1 << rng.below(8);
+            "bitflip"
+        }
+        2 if !v.is_empty() => {
+            let i = rng.below(v.len() as u64) as usize;
+            v[i] = rng.next() as u8;
+            "byte"
+        }
+        3 if v.len() < 255 => {
+            let i = rng.below(v.len() as u64 + 1) as usize;
+            v.insert(i, rng.next() as u8);
+            "insert"
+        }
+        4 if !v.is_empty() => {
+            let i = rng.below(v.len() as u64) as usize;
+            v.remove(i);
+            "delete"
+        }
+        5 => {
+            let extra = rng.below(8) as usize;
+            for _ in 0..extra {
+                if v.len() < 255 {
+                    v.push(rng.next() as u8);
+                }
+            }
+            "append"
+        }
+        _ => "valid",
+    }
+}
+
+fn classify(ans: &str) -> &'static str {
+    if ans.contains("PANIC") {
+        "panic"
+    } else if ans.contains("HANG") {
+        "hang"
+    } else if ans.contains("ERR:unknown") {
+        "ends-unknown-cid"
+    } else if ans.contains("ERR:trunc") {
+        "ends-truncated"
+    } else if ans.starts_with("- ") {
+        "empty"
+    } else {
+        "all-whole-commands"
+    }
+}
+
+pub fn run(tier: &str, seed: u64, dir: &str) {
+    let mut rng = Rng::new(seed);
+    let mut sink = Sink::new(dir);
+    let thorough = tier == "thorough";
+    // 1. every byte string of length ≤ 1 individually; length 2 (and 3 in thorough) as digest blocks per first byte
+    for set in SETS {
+        let op = format!("C03 iter {} -", set);
+        sink.case(&op, &eval(&op), "exh-len0", true);
+        for b0 in 0..=255u8 {
+            let op = format!("C03 iter {} {:02x}", set, b0);
+            let a = eval(&op);
+            sink.case(&op, &a, "exh-len1", true);
+        }
+        for b0 in 0..=255u8 {
+            let op = format!("C03 iter_digest {} {:02x} 1", set, b0);
+            sink.case_w(&op, &eval(&op), "exh-len2-digest", true, 256);
+        }
+        if thorough {
+            for b0 in 0..=255u8 {
+                let op = format!("C03 iter_digest {} {:02x} 2", set, b0);
+                sink.case_w(&op, &eval(&op), "exh-len3-digest", true, 65536);
+            }
+        }
+    }
+    // 2. every CID × every truncation point (0 ..= longest payload of the set + 2), alone and after a valid command
+    for set in SETS {
+        let cat = catalogue(set);
+        let longest = cat.iter().map(|c| c.1.unwrap_or(21)).max().unwrap_or(0);
+        for cid in 0..=255u8 {
+            for k in 0..=(longest + 2) {
+                let mut v = vec![cid];
+                // payload pattern: for group status make the first octet select all four groups
+                v.extend((0..k).map(|i| if i == 0 { 0x0f } else { (0xa0 + i) as u8 }));
+                let op = format!("C03 iter {} {}", set, hex(&v));
+                let a = eval(&op);
+                sink.case(&op, &a, &format!("trunc-{}", classify(&a)), true);
+                if k % 3 == 0 {
+                    // the same after one valid fixed-length command
+                    if let Some((c0, Some(l0), _)) = cat.iter().find(|c| matches!(c.1, Some(l) if l > 0)) {
+                        let mut w = vec![*c0];
+                        w.extend((0..*l0).map(|i| (0x10 + i) as u8));
+                        w.extend(&v);
+                        let op = format!("C03 iter {} {}", set, hex(&w));
+                        let a = eval(&op);
+                        sink.case(&op, &a, &format!("trunc2-{}", classify(&a)), true);
+                    }
+                }
+            }
+        }
+    }
+    // 3. group-status answers: every status octet × every truncation point
+    for status in 0..=255u8 {
+        let need = 1 + 5 * (status & 0x0f).count_ones() as usize;
+        for k in [0usize, 1, need.saturating_sub(1), need, need + 1, 22] {
+            let mut v = vec![0x01, status];
+            v.extend((0..k.saturating_sub(1)).map(|i| i as u8));
+            v.truncate(1 + k);
+            let op = format!("C03 iter UplinkRemoteSetup {}", hex(&v));
+            let a = eval(&op);
+            sink.case(&op, &a, &format!("groupstatus-{}", classify(&a)), true);
+        }
+    }
+    // 4. checked constructors: every payload type × lengths 0 ..= len+2 (all 256 first octets for short ones)
+    for set in SETS {
+        for (_cid, len, ty) in catalogue(set) {
+            let top = len.unwrap_or(22) + 2;
+            for n in 0..=top {
+                let firsts: Vec<u8> = if n == 0 { vec![0] } else if len.map(|l| l <= 2).unwrap_or(true) { (0..=255).collect() } else { vec![0, 1, 0x0f, 0x80, 0xff] };
+                for f in firsts {
+                    let mut v: Vec<u8> = (0..n).map(|i| (i * 7 + 3) as u8).collect();
+                    if n > 0 {
+                        v[0] = f;
+                    }
+                    let op = format!("C03 new {} {} {}", set, ty, hex(&v));
+                    let a = eval(&op);
+                    let class = if a.starts_with("ERR") { "new-refused" } else if a.contains("PANIC") { "new-panic" } else { "new-ok" };
+                    sink.case(&op, &a, class, true);
+                }
+            }
+        }
+    }
+    // 5. mutated valid streams up to 255 bytes + pure random strings
+    let n_mut = if thorough { 400_000 } else { 40_000 };
+    for i in 0..n_mut {
+        let set = *rng.pick(&SETS);
+        let (v, class) = if i % 10 == 9 {
+            let n = rng.below(256) as usize;
+            (rng.bytes(n), "random".to_string())
+        } else {
+            let mut v = gen_stream(&mut rng, set, 12);
+            let mut names = vec![];
+            for _ in 0..rng.below(3) {
+                names.push(mutate(&mut rng, &mut v));
+            }
+            v.truncate(255);
+            (v, if names.is_empty() { "valid".to_string() } else { names.join("+") })
+        };
+        let op = format!("C03 iter {} {}", set, hex(&v));
+        let a = eval(&op);
+        sink.case(&op, &a, &format!("stream-{}-{}", class.split('+').next().unwrap_or("valid"), classify(&a)), true);
+    }
+    // 6. frame parsers
+    c03_frames::run(thorough, &mut rng, &mut sink);
+    sink.finish(
+        dir,
+        "MAC-command iterators of the six sets: every byte string of length 0/1 individually and of length 2 (3 in thorough) as digest blocks per first octet; every CID × every truncation point alone and after a valid command; every McGroupStatusAns status octet × truncation; every payload type's checked constructor × lengths 0..len+2; seeded mutated valid streams ≤255 B and random strings; each next() and each accessor under catch_unwind, 300-item step budget, a second next() after None, payload slices checked to lie at the consumed offset. Frame parsers: see c03_frames. Distinct = distinct op lines; non-trivial = every case (an answer line with the yielded items, every accessor value and the rest).",
+        thorough,
+        serde_json::json!({}),
+    );
 }
